@@ -72,7 +72,10 @@ func (jp *K8sJsonLogParser) NextRecord(ctx context.Context) (*model.Record, erro
 	var r K8sJsonLogRec
 	err = json.Unmarshal(line, &r)
 	if err != nil {
-		return nil, err
+		// not a json log line (or a piece of one that is longer than the record limit): ship it as it
+		// stands; returning the error would stop the worker, and every new one, at this line for ever
+		jp.pos += int64(len(line))
+		return model.NewRecord(line, time.Now()), nil
 	}
 
 	rec := model.NewRecord(*(*[]byte)(unsafe.Pointer(&r.Log)), r.Time)
